@@ -19,7 +19,9 @@ import WcModel.Proofs.Split
            inside one exclusion: `exclude='a|b'` excludes both, inline `!a|b` excludes `a` and
            includes `b`), `C07_expand_order`, and for `WcSplit`: `wcSplit_join`, `wcSplit_ne_nil`,
            `wcSplit_no_bar`, `wcSplit_print` (+ kernel-evaluated witnesses for `|` inside brackets,
-           inside extended groups, and escaped).
+           inside extended groups, and escaped; `D34_split_fixed_witness` for brackets with a POSIX
+           class / a leading `]` / `^`, and `Properties/C07seq.lean`: the scanner's bracket skip
+           IS the parser's, `wcSplit_seq_agree`).
 -/
 namespace WcModel.C07
 open WcModel.Compile
@@ -302,6 +304,26 @@ theorem split_witness :
     wcSplit ext "[a|b".toList = ["[a".toList, "b".toList] ∧
     wcSplit pth "[a/|]|b".toList = ["[a/".toList, "]".toList, "b".toList] ∧
     wcSplit ext "".toList = [[]] := by decide +kernel
+
+open WcModel.Split in
+/-- D34 (repaired by a `fix:` commit): `WcSplit._sequence` — the SPLIT scanner's skip over a bracket
+    expression — took only `!` for the negation, took a first `]` (or a `]` after `^`) for the END of
+    the bracket and did not know POSIX classes, so the `|` in `[[:alpha:]|]`, `[]|]`, `[^]|]x` split
+    the pattern: `fnmatch('a', '[[:alpha:]|]', SPLIT)` and `fnmatch('|', '[]|]', SPLIT)` were False
+    although each pattern is ONE bracket that accepts the name without SPLIT.  The scanner now reads
+    a bracket the way the parser does (`C07.wcSplit_seq_agree`, `Properties/C07seq.lean`); this
+    witness fails again if the defect returns.  (`[[:alph:]|]` holds no POSIX class: its bracket
+    ends at the first `]`, for the parser too.) -/
+theorem D34_split_fixed_witness :
+    let ext : Cfg := { pathname := false, extend := true, bslashAbort := false }
+    let plain : Cfg := { pathname := false, extend := false, bslashAbort := false }
+    wcSplit plain "[[:alpha:]|]".toList = ["[[:alpha:]|]".toList] ∧
+    wcSplit plain "[]|]".toList = ["[]|]".toList] ∧
+    wcSplit plain "[^]|]x|y".toList = ["[^]|]x".toList, "y".toList] ∧
+    wcSplit plain "[![:alpha:]|]|y".toList = ["[![:alpha:]|]".toList, "y".toList] ∧
+    wcSplit plain "[a[:digit:]|]|b".toList = ["[a[:digit:]|]".toList, "b".toList] ∧
+    wcSplit ext "@([[:alpha:]|)]|b)|c".toList = ["@([[:alpha:]|)]|b)".toList, "c".toList] ∧
+    wcSplit plain "[[:alph:]|]".toList = ["[[:alph:]".toList, "]".toList] := by decide +kernel
 
 def toy : Ext Pat where
   norm := fun _ p => .ok p
